@@ -246,7 +246,110 @@ pub fn run(tier: &str, seed: u64, widen: bool) -> Report {
         htexts.push(s);
     }
     check_headers(&htexts, &mut rep);
+    check_cli_positions(&mut rep, &mut rng, if widen { 400 } else if tier == "thorough" { 160 } else { 40 });
     rep
+}
+
+/// The whole path from the file on disk to the printed `--> at file:line:col`: programs with ONE type
+/// error at a known byte offset, written with LF, CRLF or mixed line ends, blank lines, tabs and
+/// multi-byte characters before the error, compiled by the real CLI. The position printed for the
+/// type error must be the 1-based line and column of that offset IN THE FILE AS WRITTEN (seeded
+/// change C25_3: the text was normalised before parsing while the index was built from the raw file).
+fn check_cli_positions(rep: &mut Report, rng: &mut Rng, n: usize) {
+    use crate::e2e::{self, Program};
+    if !e2e::available() {
+        rep.notes.push("capy CLI binary missing: CLI position stream skipped".into());
+        return;
+    }
+    let mut cases = vec![];
+    for _ in 0..n {
+        let style = rng.below(3); // 0 LF, 1 CRLF, 2 mixed
+        let mut eol = |rng: &mut Rng| -> &'static str {
+            match style {
+                0 => "\n",
+                1 => "\r\n",
+                _ => {
+                    if rng.chance(1, 2) {
+                        "\r\n"
+                    } else {
+                        "\n"
+                    }
+                }
+            }
+        };
+        let mut t = String::from("core :: #mod(\"core\");");
+        t.push_str(eol(rng));
+        for k in 0..rng.below(4) {
+            match rng.below(4) {
+                0 => {}
+                1 => t.push_str("// é ü — comment"),
+                2 => t.push_str("\t// tab"),
+                _ => t.push_str(&format!("K{k} :: 5;")),
+            }
+            t.push_str(eol(rng));
+        }
+        t.push_str("main :: () {");
+        t.push_str(eol(rng));
+        for _ in 0..rng.below(3) {
+            t.push_str("    core.println(\"é\");");
+            t.push_str(eol(rng));
+        }
+        for _ in 0..rng.below(5) {
+            t.push(if rng.chance(1, 4) { '\t' } else { ' ' });
+        }
+        t.push_str("x : i32 =");
+        for _ in 0..1 + rng.below(3) {
+            t.push(' ');
+        }
+        let at = t.len();
+        t.push_str("true;");
+        t.push_str(eol(rng));
+        t.push_str("}");
+        if rng.chance(2, 3) {
+            t.push_str(eol(rng));
+        }
+        cases.push((t, at, style));
+    }
+    let progs: Vec<Program> = cases.iter().map(|c| Program::single(&c.0)).collect();
+    let outs = e2e::run_all(&progs, e2e::Limits::default());
+    for ((t, at, style), out) in cases.iter().zip(outs.iter()) {
+        rep.case(Some(format!("cli:{}:{}", lean::hex(t.as_bytes()), at)));
+        rep.hit(["cli-position:lf", "cli-position:crlf", "cli-position:mixed"][*style as usize]);
+        rep.traces_validated += 1;
+        // the first position printed after an `error` line
+        let mut seen_error = false;
+        let mut got = None;
+        for l in out.compile_out.lines() {
+            let l = l.trim_start();
+            if l.starts_with("error") {
+                seen_error = true;
+            }
+            if seen_error {
+                if let Some(rest) = l.strip_prefix("--> at ") {
+                    let mut it = rest.trim_end().rsplitn(3, ':');
+                    let c = it.next().and_then(|x| x.trim().parse::<u32>().ok());
+                    let ln = it.next().and_then(|x| x.parse::<u32>().ok());
+                    if let (Some(ln), Some(c)) = (ln, c) {
+                        got = Some((ln, c));
+                        break;
+                    }
+                }
+            }
+        }
+        let (l, c) = oracle(t.as_bytes(), *at);
+        let want = format!("{} {}", l + 1, c + 1);
+        let gots = got.map(|(l, c)| format!("{l} {c}")).unwrap_or_else(|| format!("NO-POSITION (built={})", out.built));
+        if gots != want {
+            let ends = ["lf", "crlf", "mixed"][*style as usize];
+            rep.oracle_fail(
+                "cli_position",
+                json!({"stream": "cli-positions", "text_hex": lean::hex(t.as_bytes()), "offset": at, "line_ends": ends}),
+                json!(gots),
+                json!(want),
+                "the position the CLI prints for a type error is not the line and column of the erroneous expression in the file as written",
+            );
+        }
+    }
 }
 
 pub fn replay(input: &serde_json::Value) -> String {
